@@ -22,7 +22,7 @@ PROPS["C11"] = dict(
                "vendor/extended present words, fields with bit >= 22. FLAGS values with FCS+FAILED_FCS are refused by the parser by design and are not re-parsed; a bare header "
                "with neither frame nor FCS behind it is not re-parsed (RadioTap(buffer) demands 4 bytes after the header).",
     phases=[dict(name="exhaustive", harness="c11.cpp", flavor="asan", mode="exhaustive", cases=dict(quick=26404, thorough=266644), args=dict(maxk=6), crash_limit=20),
-            dict(name="random", harness="c11.cpp", flavor="asan", mode="random", cases=dict(quick=50000, thorough=1000000), crash_limit=20)],
+            dict(name="random", harness="c11.cpp", flavor="asan", mode="random", cases=dict(quick=50000, thorough=400000), crash_limit=20)],
     rule="case = (start state: default ctor | parsed canonical encoding of a field subset, inner frame, sequence of (setter, value) with optional clone-before-step); "
          "distinct = distinct (start kind, start present mask, ordered setter list); every case has >= 1 setter and is checked at the start state and after each setter; "
          "exhaustive part: all ordered selections of <= 4 (quick) / <= 5 (thorough) of the 14 setters x 3 start states",
